@@ -1,4 +1,5 @@
 """C15 — COND definitions: well-formed accepted, malformed rejected cleanly."""
+import json
 import os
 
 from hypothesis import strategies as st
@@ -212,7 +213,8 @@ def examples(tier):
 INC_FILES = {
     "ok": ("common.cond", "THREADS = 3\nNAMES = ['x', 'y']\n"),
     "ok_func": ("funcs.cond", "import os.path\nBASE = 4\n\ndef scaled(n):\n    return n * BASE\n\n"
-                              "SIZES = list(x * BASE for x in range(2))\nTHREADS = scaled(1) - 1\njoin = lambda a: os.path.join('d', a)\n"),
+                              "SIZES = list(x * BASE for x in range(2))\nTHREADS = scaled(1) - 1\njoin = lambda a: os.path.join('d', a)\n"
+                              "\ndef count(xs):\n    return len(list(xs)) + int('0') + sum(1 for _ in range(0))\n"),
     "ok_abs": ("common.cond", "THREADS = 3\n"),
     "ok_kw": ("common.cond", "THREADS = 3\nNAMES = ['x', 'y']\n"),
     "nested": ("nest.cond", "include('common.cond')\nZ = 1\n"),
@@ -231,7 +233,7 @@ def include_line(how, pkg):
         # the reference documents the argument by name: include(path)
         return "include(path='common.cond')"
     if how == "ok_func":
-        return "include('funcs.cond')\nassert scaled(2) == 8 and SIZES == [0, 4] and join('x') == 'd/x'"
+        return "include('funcs.cond')\nassert scaled(2) == 8 and SIZES == [0, 4] and join('x') == 'd/x' and count(range(3)) == 3"
     if how == "ok_abs":
         return "include('//%s')" % (os.path.join(pkg, "common.cond"))
     if how == "missing":
@@ -426,6 +428,42 @@ def expectation(case):
     return "accept", labels, None
 
 
+_OLD = {}
+
+
+def _old_python():
+    """An interpreter of the oldest supported minor versions (setup.py: >= 3.8), if this machine has one, plus a PYTHONPATH
+    that provides Conductor's only third-party import for them (tomli, pure Python, copied from /venv)."""
+    if "py" not in _OLD:
+        import atexit
+        import glob
+        import shutil
+        import subprocess
+        py = None
+        for pat in ("/root/.pyenv/versions/3.9.*/bin/python", "/root/.pyenv/versions/3.8.*/bin/python"):
+            g = sorted(glob.glob(pat))
+            if g:
+                py = g[0]
+                break
+        deps = None
+        if py:
+            src = glob.glob("/venv/lib/python3*/site-packages/tomli")
+            deps = projgen.new_scratch("py39deps")
+            atexit.register(shutil.rmtree, deps, True)
+            if src:
+                shutil.copytree(src[0], os.path.join(deps, "tomli"), ignore=shutil.ignore_patterns("__pycache__", "*.so"))
+            from ..isolate import SRC
+            env = dict(os.environ, PYTHONPATH=SRC + os.pathsep + deps)
+            try:
+                ok = subprocess.run([py, "-c", "import conductor.__main__"], env=env, capture_output=True, timeout=60).returncode == 0
+            except Exception:  # noqa
+                ok = False
+            if not ok:
+                py = None
+        _OLD["py"], _OLD["deps"] = py, deps
+    return _OLD["py"], _OLD["deps"]
+
+
 def run_case(case):
     base = projgen.new_scratch("c15")
     root = os.path.join(base, "proj")   # so that '..' of the project is private to this case
@@ -492,6 +530,18 @@ def run_case(case):
                 made = [os.path.join(dp, d) for dp, dn, _ in os.walk(os.path.join(root, "cond-out")) for d in dn if ".task" in d]
                 if made:
                     v.append(("output_created", "%s created task output %s" % (what, made[:2])))
+        # the oldest supported interpreters: a well-formed project with an included file must be accepted there as well
+        if verdict == "accept" and "include_ok" in labels and len(json.dumps(case, sort_keys=True, default=repr)) % 3 == 0:
+            py, deps = _old_python()
+            if py:
+                import subprocess
+                from ..isolate import SRC
+                labels.add("also_checked_under_python_3_9")
+                r = subprocess.run([py, "-m", "conductor", "run", "--check", tid], cwd=root, capture_output=True, text=True, timeout=120,
+                                   env=dict(os.environ, PYTHONPATH=SRC + os.pathsep + deps, PYTHONHASHSEED="0"))
+                if r.returncode != 0:
+                    v.append(("rejects_well_formed:old_python", "cond run --check %s under %s rejected a well-formed definition: %s" % (
+                        tid, py, r.stderr.strip()[-300:])))
         nontrivial = (bool(nfault) or verdict == "reject" or "include_ok" in labels) and ntasks >= 2
         seen, uv = set(), []
         for s in v:
